@@ -71,7 +71,8 @@ def _colour_table(src, fn, ret, arm_re, what):
     head = "fn%s(color:anstyle::AnsiColor)->%s{matchcolor{" % (fn, _squash(ret))
     i = sq.find(head)
     if i < 0:
-        raise GenError("%s: `fn %s(color: anstyle::AnsiColor) -> %s { match color {` not found" % (what, fn, ret))
+        return _colour_table_eval(src, fn, arm_re, what,
+                                  "%s: `fn %s(color: anstyle::AnsiColor) -> %s { match color {` not found" % (what, fn, ret))
     j = sq.find("}}", i)
     if j < 0:
         raise GenError("%s: %s: unterminated match" % (what, fn))
@@ -80,7 +81,7 @@ def _colour_table(src, fn, ret, arm_re, what):
     arms = re.findall(arm, arms_src)
     rest = re.sub(arm, "", arms_src)
     if rest:
-        raise GenError("%s: %s: unrecognised arm near %r" % (what, fn, rest[:80]))
+        return _colour_table_eval(src, fn, arm_re, what, "%s: %s: unrecognised arm near %r" % (what, fn, rest[:80]))
     tab = {}
     for a in arms:
         v = a[0]
@@ -92,6 +93,29 @@ def _colour_table(src, fn, ret, arm_re, what):
     if len(tab) != 16:
         raise GenError("%s: %s: expected 16 arms, found %d" % (what, fn, len(tab)))
     return [(ANSI_NAMES.index(v), tab[v]) for v in ANSI_NAMES]
+
+
+def _colour_table_eval(src, fn, arm_re, what, why):
+    """The 16 arms are DATA, but the function need not be spelled as one 16-arm `match` of full paths: or-patterns
+    (`Red | BrightRed => ..`), a `use anstyle::AnsiColor;`, a private helper for the hue, the bold flag from
+    `color.is_bright()` give the same table.  When the text shape is gone and the function translator still translates
+    the crates (_fn_takes_over), the table is the GRAPH of the function over the 16 constants, computed by evaluating it
+    (tools/rs_eval.py: the function, its callees in the file, methods of AnsiColor from crates/anstyle/src/color.rs); every
+    value must still have the form of an arm (`arm_re`).  Sound whatever the evaluator computes: Proofs/AdaptersGen.v proves
+    the translated function equal to the hand model over this table, Proofs/Adapters.v proves the hand model over it."""
+    _fn_takes_over(why)
+    import rs_eval
+    try:
+        rows = rs_eval.graph(src, fn, "anstyle::AnsiColor", read("crates/anstyle/src/color.rs"), ANSI_NAMES, what)
+    except rs_eval.EvalError as e:
+        raise GenError("%s (and the table cannot be computed from the function: %s)" % (why, e))
+    out = []
+    for v, text in rows:
+        m = re.fullmatch(arm_re, text)
+        if not m:
+            raise GenError("%s: %s(AnsiColor::%s) = `%s`: not of the form of an arm" % (what, fn, v, text))
+        out.append((ANSI_NAMES.index(v), m.groups()))
+    return out
 
 
 def _fn_takes_over(why):
